@@ -298,6 +298,80 @@ def model_token(ctx, values, kwargs=None):
 
 
 # ----------------------------------------------------------------------------------------------
+# recursive containers (C12): ["v", valspec] | ["back", up] | ["rlist", […]] | ["rtuple", […]] | ["rdict", [[keyspec, r]…]]
+# `up` counts the enclosing list / tuple / dict frames (0 = innermost) and must point to a list or dict
+# ----------------------------------------------------------------------------------------------
+
+def build_rec(spec, stack=None):
+    stack = [] if stack is None else stack
+    t = spec[0]
+    if t == "v":
+        return build(spec[1])
+    if t == "back":
+        target = stack[-1 - spec[1]]
+        if target is None:
+            raise ValueError("reference to a tuple under construction")
+        return target
+    if t == "rlist":
+        out = []
+        stack.append(out)
+        for s in spec[1]:
+            out.append(build_rec(s, stack))
+        stack.pop()
+        return out
+    if t == "rtuple":
+        stack.append(None)
+        out = tuple(build_rec(s, stack) for s in spec[1])
+        stack.pop()
+        return out
+    if t == "rdict":
+        out = {}
+        stack.append(out)
+        for k, v in spec[1]:
+            out[build(k)] = build_rec(v, stack)
+        stack.pop()
+        return out
+    raise ValueError(spec)
+
+
+def enc_rec(spec, table):
+    t = spec[0]
+    if t == "v":
+        return [Sym("rval"), enc(build(spec[1]), table)]
+    if t == "back":
+        return [Sym("back"), spec[1]]
+    if t in ("rlist", "rtuple"):
+        return [Sym(t)] + [enc_rec(s, table) for s in spec[1]]
+    # the model needs the items in the order the real dict iterates them: insertion order of the spec (keys distinct)
+    return [Sym("rdict")] + [[enc(build(k), table), enc_rec(v, table)] for k, v in spec[1]]
+
+
+def gen_rec(rng, depth=0, kinds=()):
+    """random recursive value; `kinds` = kinds of the enclosing frames, innermost last"""
+    r = rng.random()
+    targets = [i for i, k in enumerate(reversed(kinds)) if k in ("rlist", "rdict")]
+    if targets and r < 0.3:
+        return ["back", rng.choice(targets)]
+    if depth >= 3 or r < 0.5:
+        return ["v", gen_value(rng, 2, arrays=False)]
+    k = rng.choice(["rlist", "rlist", "rtuple", "rdict"])
+    if k == "rdict":
+        keys = distinct_hashables(rng, rng.randint(1, 3))
+        return ["rdict", [[kk, gen_rec(rng, depth + 1, kinds + (k,))] for kk in keys]]
+    return [k, [gen_rec(rng, depth + 1, kinds + (k,)) for _ in range(rng.randint(1, 3))]]
+
+
+def has_back(spec):
+    if spec[0] == "back":
+        return True
+    if spec[0] in ("rlist", "rtuple"):
+        return any(has_back(s) for s in spec[1])
+    if spec[0] == "rdict":
+        return any(has_back(v) for _, v in spec[1])
+    return False
+
+
+# ----------------------------------------------------------------------------------------------
 # task-spec nodes (C11)
 # ----------------------------------------------------------------------------------------------
 
